@@ -35,7 +35,23 @@ EXTRA = {
            'packages); trees carry real .pyc files; the listing is an observation next to the import log.',
     'C06': ' Forced-schedule worlds have layers of increasing size; a names family compares the modes over look-alike '
            'layer names and test ids with line-separator characters.',
-    'C02': ' Spawn failures of several errno classes, failures in the first --repeat iteration only and -D runs (known '
+    'C13': ' StdStreams.tla also has the start state of a layer subprocess (sys.stderr rebound to sys.stdout); --buffer runs '
+           'with layers in subprocesses (-j 2, resume) go through the command line, stream identity between tests is observed '
+           'inside the children; part of the cases run with --xml, and with -D.',
+    'C11': ' Bundles also contain the second of two runs in one process (seeded, and clock-seeded with -j: what the first run '
+           'left in the process - environment, module-level random state, imported test modules that draw random numbers at '
+           'import - is there for the second), listings under -j, and parametrised test instances that compare equal.',
+    'C01': ' Profiles with failing layer tearDowns under -x, layer setUps failing half-way up a stack (random and directed) '
+           'and --color / -D / --progress options were added.',
+    'C04': ' The worlds use --color, --progress and -vvvv, compiler-made SyntaxErrors and awkward messages, tests that stand in '
+           'for sys.stdout or patch the clock while they fail; the end-of-process tear-down clauses of C01 are owned by C04 too.',
+    'C05': ' The worlds use -D (tests run through TestCase.debug), class fixtures (setUpClass that skips / raises) and more '
+           '5-6 layer graphs.',
+    'C16': ' C16 owns the end-of-process tear-down clauses; directed worlds: setUp failure over a base that cannot be torn '
+           'down, failing tests that leave their own stream in place under --buffer.',
+    'C07': ' Names are compared exactly up to CR / LF -> blank; a child dying after fd-2 text the parent cannot encode; errno '
+           'classes of a failing Popen.',
+    'C02': ' Runs in which nothing fails but layer tearDowns (final sweep, sweeps cut short by NotImplementedError). Spawn failures of several errno classes, failures in the first --repeat iteration only and -D runs (known '
            'finding) are part of the worlds; --color is an option of the core worlds.',
 }
 
